@@ -227,7 +227,7 @@ func fieldUsedOnlyAsArg0ofInvoke(p *an.Prog, fn *ssa.Function, fv *types.Var, me
 
 func init() {
 	register(&Def{ID: "C09", Run: c09,
-		Explain:     "Decides on SSA for rwc.Conn: (R1) Read returns a nil error only when len(b) >= len(chunk), copies the received chunk, and reports a closed channel as a non-nil error; (ORDER) in the pump, whenever Read returned n!=0 together with an error, buf[:n] of that very buffer is offered to the queue before the error return, and every delivery is buf[:n] of the buffer just read; the pump's deferred cleanup records its error and closes the channel, and it is the only sender/closer; (R1) Write returns nil only when everything was written, resuming at pkt[written:]; (PANIC) totality of these functions. (LOOPALLOC) every pump iteration reads into a buffer (re)assigned from the arena inside the loop before the Read, so queued chunks never alias the buffer of the next read. (PROVENANCE) the logging stream wrappers (util/logconn, util/logrw) return the underlying call's (n, err) unchanged on the caller's buffer.",
+		Explain:     "Decides on SSA for rwc.Conn: (R1) Read returns a nil error only when len(b) >= len(chunk), copies the received chunk, and reports a closed channel as a non-nil error; (ORDER) in the pump, whenever Read returned n!=0 together with an error, buf[:n] of that very buffer is offered to the queue before the error return, and every delivery is buf[:n] of the buffer just read; the pump's deferred cleanup records its error and closes the channel, and it is the only sender/closer; (R1) Write returns nil only when everything was written, resuming at pkt[written:]; (PANIC) totality of these functions. (LOOPALLOC) every pump iteration reads into a buffer (re)assigned from the arena inside the loop before the Read, so queued chunks never alias the buffer of the next read. (PROVENANCE) the logging stream wrappers (util/logconn, util/logrw) return the underlying call's (n, err) unchanged on the caller's buffer. (OWNERSHIP) an arena buffer is not touched after it was handed back to the pool.",
 		NotCov:      "ordering across chunks (single pump goroutine + FIFO channel: trusted); the explicit short-buffer truncation is permitted by the property.",
 		Assumptions: commonAssumptions})
 }
